@@ -168,8 +168,9 @@ func c19Case(t *rapid.T, rec *ev.Rec, jr *journal) {
 		// ensure / alter create persist before they build an index on a
 		// populated table (db19 f849650): that state holds the database as
 		// it is before the request
-		pre := ""
+		pre, mayBuild := "", false
 		if st.Kind == dbgen.KAdmin && (st.Admin.Kind == "ensure" || st.Admin.Kind == "altercreate") {
+			mayBuild = true // (the dump of an empty database is "")
 			if len(states) > 0 && nowMs() <= states[len(states)-1].t {
 				time.Sleep(time.Millisecond)
 			}
@@ -178,7 +179,7 @@ func c19Case(t *rapid.T, rec *ev.Rec, jr *journal) {
 		}
 		jr.add(st)
 		res := s.Apply(st)
-		if pre != "" {
+		if mayBuild {
 			if off := s.DB.GetState().Off; off != s.LastOff {
 				s.LastOff = off
 				sr := stateRec{t: nowMs(), off: off, dump: pre}
